@@ -26,7 +26,7 @@ BAND = 8          # 2^-19 relative
 BIG = 2 ** 30
 
 
-def _query(entry, X, y, cand, seed, variant):
+def _query(entry, X, y, cand, seed, variant, reuse=None):
     # one third of the groups present the missing labels with a reserved number instead of NaN (all calls of a
     # group alike): code that handles one way of addressing the candidates with the configured sentinel and
     # another with the default one is only visible then
@@ -38,14 +38,26 @@ def _query(entry, X, y, cand, seed, variant):
         else:
             ml = -1
             y = np.where(np.isnan(y), ml, y).astype(int)
-    qs = entry.make(seed, ml, (0, 1))
+    # reuse: one strategy object answers all addressings of the group (state cached on the object by one call
+    # must not leak into the next one); otherwise a fresh object per call
+    if reuse is not None and "qs" in reuse:
+        qs = reuse["qs"]
+    else:
+        qs = entry.make(seed, ml, (0, 1))
+        if reuse is not None:
+            reuse["qs"] = qs
     kw = zoo.model_kwargs(entry, ml, cls, seed=seed, variant=variant)
     np.random.seed(4711)   # hidden use of the global generator is C06's subject
     with warnings.catch_warnings():
         warnings.simplefilter("ignore")
         with np.errstate(all="ignore"):
             with pc.time_limit(120):
-                q, u = qs.query(X.copy(), y.copy(), candidates=cand, batch_size=1, return_utilities=True, **kw)
+                # (with a re-used object two samples are taken, so that whatever a batch loop caches on the
+                #  object after the first pick would be seen by the next call; only the first row is compared)
+                n_c = int(np.sum(np.isnan(np.asarray(y, dtype=float)) if ml != ml else np.asarray(y) == ml)) \
+                    if cand is None else len(cand)
+                bs = 2 if (reuse is not None and n_c >= 2) else 1
+                q, u = qs.query(X.copy(), y.copy(), candidates=cand, batch_size=bs, return_utilities=True, **kw)
     return np.asarray(q), np.asarray(u, dtype=float)
 
 
@@ -66,22 +78,24 @@ def run_group(entry, sc, seed, variant, kind):
     n = len(X)
     unl = [i for i in range(n) if np.isnan(y[i])]
     obs = []   # (name, {sid: value}, selected sid, samekeys, cmpsel)
+    # half of the groups over the same (X, y) use ONE strategy object for all addressings
+    reuse = {} if (kind in ("modes", "restrict") and seed % 2 == 1) else None
     try:
-        q, u = _query(entry, X, y, None, seed, variant)
+        q, u = _query(entry, X, y, None, seed, variant, reuse)
         obs.append(("none", {i: u[0, i] for i in unl}, int(q[0]), True, True))
         if kind == "modes":
-            q, u = _query(entry, X, y, np.array(unl), seed, variant)
+            q, u = _query(entry, X, y, np.array(unl), seed, variant, reuse)
             obs.append(("idx", {i: u[0, i] for i in unl}, int(q[0]), True, True))
             if entry.rows:
-                q, u = _query(entry, X, y, X[unl].copy(), seed, variant)
+                q, u = _query(entry, X, y, X[unl].copy(), seed, variant, reuse)
                 obs.append(("rows", {unl[k]: u[0, k] for k in range(len(unl))}, unl[int(q[0])], True, True))
         elif kind == "restrict":
             k = max(1, int(rng.randint(1, len(unl) + 1)))
             sub = list(rng.permutation(unl)[:k])
-            q, u = _query(entry, X, y, np.array(sub), seed, variant)
+            q, u = _query(entry, X, y, np.array(sub), seed, variant, reuse)
             obs.append(("subset", {i: u[0, i] for i in sub}, int(q[0]), False, False))
             if entry.rows:
-                q, u = _query(entry, X, y, X[sub].copy(), seed, variant)
+                q, u = _query(entry, X, y, X[sub].copy(), seed, variant, reuse)
                 obs.append(("subset-rows", {sub[j]: u[0, j] for j in range(len(sub))}, sub[int(q[0])], False, False))
         elif kind == "permute":
             perm = rng.permutation(n)          # new row r holds old sample perm[r]
@@ -100,6 +114,7 @@ def run_group(entry, sc, seed, variant, kind):
     return {"id": "%s/%s/%s/seed%d/v%d" % (entry.name, kind, pc.scenario_tag(sc), seed, variant),
             "band": BAND, "events": events,
             "concrete": {"strategy": entry.name, "relation": kind, "scenario": sc, "seed": seed, "variant": variant,
+                         "one_strategy_object_for_all_calls": reuse is not None,
                          "X": X.tolist(), "y": ["nan" if v != v else v for v in y.tolist()],
                          "how": "harness.drivers.c08.run_group(entry, scenario, seed, variant, relation)"}}
 
